@@ -9,6 +9,10 @@ import (
 	"strings"
 )
 
+// tempFilePrefix is the prefix of the temporary files created by Set.
+// A killed process may leave such a file behind; they are never reported as keys.
+const tempFilePrefix = ".tmp-"
+
 type fileStorage struct {
 	dirPath string
 }
@@ -34,16 +38,33 @@ func NewFileStorage(dir string) (Storage, error) {
 }
 
 // Set sets the value for a specific key.
+//
+// The value is written to a temporary file inside the same directory, which is
+// then renamed to the file of the key. If the process is killed at any point
+// of Set, the key holds either its previous or the new value in full – never
+// an empty, truncated or mixed value.
 func (f *fileStorage) Set(key string, value []byte) error {
-	file, err := f.fileForWrite(key)
+	path := f.filePathToFile(key)
+	tmpPath := filepath.Join(filepath.Dir(path), tempFilePrefix+RandomHexString())
 
+	file, err := os.OpenFile(tmpPath, os.O_WRONLY|os.O_CREATE|os.O_EXCL, 0666)
 	if err != nil {
 		return err
 	}
 
-	defer file.Close()
-
 	_, err = file.Write(value)
+	if cerr := file.Close(); err == nil {
+		err = cerr
+	}
+
+	if err == nil {
+		err = os.Rename(tmpPath, path)
+	}
+
+	if err != nil {
+		os.Remove(tmpPath)
+	}
+
 	return err
 }
 
@@ -81,6 +102,11 @@ func (f *fileStorage) KeysWithSuffix(suffix string) (keys []string, err error) {
 
 	if infos, err = ioutil.ReadDir(f.dir()); err == nil {
 		for _, info := range infos {
+			if strings.HasPrefix(info.Name(), tempFilePrefix) == true {
+				// leftover of an interrupted Set
+				continue
+			}
+
 			if info.IsDir() == false && strings.HasSuffix(info.Name(), suffix) == true {
 				keys = append(keys, info.Name())
 			}
@@ -98,10 +124,6 @@ func (f *fileStorage) dir() string {
 func (f *fileStorage) filePathToFile(file string) string {
 	fname := removeInvalidFileNameCharacters(file)
 	return filepath.Join(f.dir(), fname)
-}
-
-func (f *fileStorage) fileForWrite(key string) (*os.File, error) {
-	return os.OpenFile(f.filePathToFile(key), os.O_WRONLY|os.O_CREATE, 0666)
 }
 
 func (f *fileStorage) fileForRead(key string) (*os.File, error) {
